@@ -3,35 +3,53 @@ import os
 HERE = os.path.dirname(os.path.abspath(__file__))
 COMMON = os.path.join(os.path.dirname(HERE), "common")
 
-ASSUMPTIONS = []
+ASSUMPTIONS = [
+    "directory model (E4 ghost `Dir`): the listing functions (RollingLogger::get_log_files, misc_helpers::get_files, "
+    "misc_helpers::search_files) return exactly the files of their class, each once, sorted by Ord for PathBuf; no other process "
+    "creates files of that class; archive/dump names embed the creation time so that path order is age order",
+    "POSIX: remove_file Ok removes exactly that file, Err changes nothing; rename Ok moves the existing source (length kept) onto the "
+    "target, Err changes nothing; File::create/append-open of the current log creates it empty if absent and touches nothing else",
+    "json_write_to_file adds at most one file to the directory (temp file + rename) and removes none",
+    "bytes handed to LineWriter::write_all are accounted to the file when handed over (they reach the disk at the latest when the "
+    "writer is flushed/dropped, before the next length check); a write_all of n bytes grows the file by at most n; flush by 0",
+    "a Vec<PathBuf> holds fewer than usize::MAX elements (allocation limit isize::MAX bytes)",
+    "get_current_file_full_path(Some(t)) differs from get_current_file_full_path(None)",
+    "Display of std::path::Display, std::io::Error, the crate Error and i128 does not panic",
+]
 
 DIR = "Tracked(d): Tracked<&mut Dir>"
 DIR_RO = "Tracked(d): Tracked<&Dir>"
 
 # std::fs::remove_file (E9 + E4): Ok means the file is gone, Err means nothing changed (POSIX unlink)
 REMOVE_FILE_CONTRACT = """
-        ensures r is Ok ==> final(d).files == old(d).files.remove(%(p)s) && final(d).rm_failed == old(d).rm_failed,
-                r is Err ==> final(d).files == old(d).files && final(d).rm_failed,
+        ensures r is Ok ==> final(d).files == old(d).files.remove(%(p)s) && final(d).io_failed == old(d).io_failed,
+                r is Err ==> final(d).files == old(d).files && final(d).io_failed,
 """
 
 # std::fs::rename (E9 + E4): POSIX rename: Ok means `from` existed and now is `to` (replacing it); Err: nothing changed
 RENAME_CONTRACT = """
         ensures r is Ok ==> old(d).files.contains_key(from) && final(d).files == old(d).files.remove(from).insert(to, old(d).files[from]),
                 r is Err ==> final(d).files == old(d).files,
-                final(d).rm_failed == old(d).rm_failed,
+                final(d).io_failed == old(d).io_failed,
+"""
+
+# <LineWriter<File> as Write>::write_all / flush (E9 + E4)
+WRITE_CONTRACT = """
+        ensures wpath(*final(writer)) == wpath(*old(writer)),
+                appended_at_most(*old(d), *final(d), wpath(*old(writer)), %s),
 """
 
 LOGGER_SPEC = """
 /// the path `get_current_file_full_path` computes (uninterpreted; `None` = the file being written)
 pub uninterp spec fn log_path(l: RollingLogger, ts: Option<String>) -> PathBuf;
-/// the file an open writer appends to
-pub uninterp spec fn wpath(w: LineWriter<File>) -> PathBuf;
 impl RollingLogger {
     pub open spec fn cur(self) -> PathBuf { log_path(self, None) }
+    pub open spec fn max(self) -> int { self.max_log_file_count as int }
 }
 """
 
-# the deletion loop shared (textually) by write_all and archive_file: `count` starts at max and counts removals
+# the deletion loop shared (textually) by write_all and archive_file: `count` starts at max and counts removals.
+# %(g)s guards the "already removed" fact: write_all ignores a failed removal (flag), archive_file returns on it.
 DELETE_LOOP_INV = """
                 invariant_except_break
                     it.index@ == count - %(m)s,
@@ -40,12 +58,16 @@ DELETE_LOOP_INV = """
                     d.wf(),
                     %(m)s <= count <= %(l)s.len() + 1,
                     d.names().subset_of(d0.names()),
+                    d.count() <= d0.count(),
+                    d0.io_failed ==> d.io_failed,
                     forall|p: PathBuf| #[trigger] d.files.contains_key(p) ==> d.files[p] == d0.files[p],
                     forall|k: int| count - %(m)s <= k < %(l)s.len() ==> d.files.contains_key(#[trigger] %(l)s[k]),
-                    !d.rm_failed ==> forall|k: int| 0 <= k < count - %(m)s ==> !d.files.contains_key(#[trigger] %(l)s[k]),
+                    %(g)sforall|k: int| 0 <= k < count - %(m)s ==> !d.files.contains_key(#[trigger] %(l)s[k]),
                 ensures
                     %(m)s >= 1 ==> count == %(l)s.len() + 1,
 """
+
+SIZE_CLAUSE = "forall|b: nat| %s#[trigger] all_sizes_le(*old(d), b) ==> all_sizes_le(*final(d), b)"
 
 
 def ext_verbatim(u, sf, modname, uses, type_paths, impl_paths, opaque_names):
@@ -68,6 +90,27 @@ def ext_verbatim(u, sf, modname, uses, type_paths, impl_paths, opaque_names):
     u.pieces = saved
     for n in opaque_names:
         u.emit("#[verifier::external_type_specification]\n#[verifier::external_body]\npub struct VxEx_%s_%s(crate::%s::%s);" % (modname, n, modname, n), "glue", "E1")
+
+
+def arg_slices(u, sf, callee, kind, argno, nargs, name, ret_type, contract, only_fns=None):
+    """E5c: lift the `argno`-th argument expression of every (non-test) call of `callee` in file `sf` into a generated fn."""
+    from vxlib import Undecided
+    n = 0
+    for it in sf.all_fns():
+        if it["path"].startswith("tests::") or it.get("body") is None:
+            continue
+        if only_fns is not None and it["path"] not in only_fns:
+            continue
+        for c in it["calls"]:
+            if c["kind"] == kind and c["callee"].replace(" ", "") == callee and len(c["args"]) == nargs:
+                a = c["args"][argno]
+                n += 1
+                nm = "%s_%d" % (name, n)
+                u.slice_fn(sf, it["path"], nm, a[0], a[1], "", ret_type=ret_type, contract=contract % nm,
+                           what="(argument %d of %s)" % (argno, callee))
+    if n == 0:
+        raise Undecided("no call of %s found in %s" % (callee, sf.rel))
+    return n
 
 
 def build(u):
@@ -93,9 +136,14 @@ def build(u):
         u.take_fn(mh, "search_files", external_body=True, ghost=DIR_RO, contract="""
         ensures r is Ok ==> is_listing(r->Ok_0@, *d) && r->Ok_0@.len() < usize::MAX,
 """)
+        u.take_fn(mh, "get_files", external_body=True, ghost=DIR, contract="""
+        ensures final(d).files == old(d).files,
+                r is Ok ==> is_listing(r->Ok_0@, *old(d)) && r->Ok_0@.len() < usize::MAX && final(d).io_failed == old(d).io_failed,
+                r is Err ==> final(d).io_failed,
+""")
         u.take_fn(mh, "json_write_to_file", external_body=True, ghost=DIR, contract="""
         ensures added_at_most_one(*old(d), *final(d)),
-                final(d).rm_failed == old(d).rm_failed,
+                final(d).io_failed == old(d).io_failed,
                 forall|p: PathBuf| old(d).files.contains_key(p) ==> #[trigger] final(d).files.contains_key(p),
 """)
         u.take_fn(mh, "get_date_time_string_with_milliseconds", external_body=True)
@@ -104,9 +152,12 @@ def build(u):
     # ---- rolling logger ----
     lg = u.src("proxy_agent_shared/src/logger.rs")
     rl = u.src("proxy_agent_shared/src/logger/rolling_logger.rs")
+    lm = u.src("proxy_agent_shared/src/logger/logger_manager.rs")
     with u.mod("logger", uses="use crate::misc_helpers;"):
         u.raw("pub type LoggerLevel = log::Level;")
         u.take_fn(lg, "get_log_header", external_body=True)
+        with u.mod("logger_manager", uses="use log::Level;"):
+            u.take_fn(lm, "write_log", external_body=True, ret="")
         with u.mod("rolling_logger", uses="use crate::misc_helpers;\nuse crate::result::Result;\nuse log::Level;\nuse std::fs::{self, File, OpenOptions};\nuse std::io::{LineWriter, Write};\nuse std::path::PathBuf;"):
             u.take(rl, "RollingLogger", "struct")
             u.raw(LOGGER_SPEC)
@@ -115,14 +166,16 @@ def build(u):
         requires old(d).wf(),
         ensures r is Ok ==> final(d).files == created_if_absent(old(d).files, self.cur()) && wpath(r->Ok_0) == self.cur(),
                 r is Err ==> final(d).files == old(d).files,
-                final(d).rm_failed == old(d).rm_failed,
+                final(d).io_failed == old(d).io_failed,
 """)
                 u.take_fn(rl, "RollingLogger::get_current_file_full_path", external_body=True, contract="""
         ensures r == log_path(*self, timestamp),
                 timestamp is Some ==> r != self.cur(),
 """)
-                u.take_fn(rl, "RollingLogger::get_log_files", external_body=True, ghost=DIR_RO, contract="""
-        ensures r is Ok ==> is_listing(r->Ok_0@, *d) && r->Ok_0@.len() < usize::MAX,
+                u.take_fn(rl, "RollingLogger::get_log_files", external_body=True, ghost=DIR, contract="""
+        ensures final(d).files == old(d).files,
+                r is Ok ==> is_listing(r->Ok_0@, *old(d)) && r->Ok_0@.len() < usize::MAX && final(d).io_failed == old(d).io_failed,
+                r is Err ==> final(d).io_failed,
 """)
                 u.take_fn(rl, "RollingLogger::archive_file", ghost=DIR,
                           ghost_calls=[("get_log_files", None, "Tracked(d)")],
@@ -133,17 +186,125 @@ def build(u):
                           pre_body="broadcast use axiom_fmt_i128;",
                           loop_iter_names={0: "it"},
                           loop_attrs={0: "#[verifier::loop_isolation(false)]"},
-                          loops={0: DELETE_LOOP_INV % dict(l="l", m="max_count")},
-                          hints=[("let log_files = self.get_log_files", None, "before", "let ghost dr = *d;"),
+                          loops={0: DELETE_LOOP_INV % dict(l="l", m="max_count", g="")},
+                          hints=[("fs::rename(current_name", None, "after", "proof { lemma_rename(*old(d), *d, current_name, new_file_name); }"),
                                  ("let max_count: usize", None, "before", "let ghost d0 = *d;\nlet ghost l = log_files@;"),
+                                 ("for log in log_files", None, "after", "proof { lemma_prefix_removed(l, d0, *d, count - max_count); }"),
+                                 ("Ok(())", None, "before", "proof { if l.len() < self.max_log_file_count { lemma_prefix_removed(l, d0, *d, 0); } }"),
                                  ],
                           contract="""
         requires old(d).wf(),
                  self.max_log_file_count >= 1,
         ensures final(d).wf(),
+                r is Ok ==> final(d).count() <= self.max() - 1,  // @C19.archive_file.at_most_max_minus_one_kept_for_any_start
+                r is Ok ==> !final(d).files.contains_key(self.cur()),  // @C19.archive_file.current_file_archived
+                r is Ok ==> archived_then_removed_oldest(*old(d), *final(d), self.cur()),  // @C19.archive_file.oldest_removed_first
+                r is Ok ==> final(d).count() >= min_int(old(d).count() - 1, self.max() - 1),  // @C19.archive_file.keeps_allowed_number
+                final(d).count() <= old(d).count(),  // @C19.archive_file.never_adds_a_file
+                !final(d).io_failed ==> r is Ok || final(d).files == old(d).files,
+                old(d).io_failed ==> final(d).io_failed,
+                %s,  // @C19.archive_file.no_file_grows
+""" % (SIZE_CLAUSE % ""))
+                u.take_fn(rl, "RollingLogger::roll_if_needed", ghost=DIR,
+                          ghost_calls=[("open_file", 0, "Tracked(d)"), ("open_file", 1, "Tracked(d)"), ("archive_file", None, "Tracked(d)")],
+                          e9=[("file.metadata()", None, "file: &PathBuf, " + DIR_RO, "&file, Tracked(d)", "std::io::Result<std::fs::Metadata>", """
+        ensures r is Ok ==> d.files.contains_key(*file) && meta_len(r->Ok_0) == d.files[*file],
+""", dict(name="vx_e9_metadata"))],
+                          contract="""
+        requires old(d).wf(),
+                 self.max_log_file_count >= 1,
+        ensures final(d).wf(),
+                !final(d).io_failed ==> (log_inv(*old(d), self.cur(), self.max()) ==> log_inv(*final(d), self.cur(), self.max())),  // @C19.roll_if_needed.file_count_invariant
+                final(d).count() <= old(d).count() + 1,
+                old(d).io_failed ==> final(d).io_failed,
+                r is Ok ==> final(d).files.contains_key(self.cur()) && (final(d).files[self.cur()] < self.max_log_file_size || final(d).files[self.cur()] == 0),  // @C19.roll_if_needed.current_file_below_limit
+                %s,  // @C19.roll_if_needed.no_file_grows
+""" % (SIZE_CLAUSE % ""))
+                WL = """
+        requires old(d).wf(),
+                 self.max_log_file_count >= 1,
+        ensures final(d).wf(),
+                !final(d).io_failed ==> (log_inv(*old(d), self.cur(), self.max()) ==> log_inv(*final(d), self.cur(), self.max())),  // @C19.%(f)s.file_count_invariant
+                r is Ok ==> final(d).size(self.cur()) <= self.max_log_file_size + %(w)s,  // @C19.%(f)s.current_file_beyond_limit_by_at_most_this_write
+                %(s)s,  // @C19.%(f)s.no_file_beyond_limit_by_more_than_one_write
+"""
+                u.take_fn(rl, "RollingLogger::write_line", ghost=DIR,
+                          ghost_calls=[("roll_if_needed", None, "Tracked(d)"), ("open_file", None, "Tracked(d)")],
+                          e9=[("writer.write_all(message.as_bytes())", None, "writer: &mut LineWriter<File>, message: &String, " + DIR, "&mut writer, &message, Tracked(d)",
+                               "std::io::Result<()>", WRITE_CONTRACT % "utf8_len(message@)", dict(name="vx_e9_write_line_msg")),
+                              ('writer.write_all(b"\\n")', None, "writer: &mut LineWriter<File>, " + DIR, "&mut writer, Tracked(d)",
+                               "std::io::Result<()>", WRITE_CONTRACT % "1", dict(name="vx_e9_write_line_nl")),
+                              ("writer.flush()", None, "writer: &mut LineWriter<File>, " + DIR, "&mut writer, Tracked(d)",
+                               "std::io::Result<()>", WRITE_CONTRACT % "0", dict(name="vx_e9_write_line_flush"))],
+                          contract=WL % dict(f="write_line", w="utf8_len(message@) + 1",
+                                             s=SIZE_CLAUSE % "b >= self.max_log_file_size + utf8_len(message@) + 1 && "))
+                u.take_fn(rl, "RollingLogger::write_many", ghost=DIR,
+                          ghost_calls=[("roll_if_needed", None, "Tracked(d)"), ("open_file", None, "Tracked(d)")],
+                          e9=[("writer.write_all(message.as_bytes())", None, "writer: &mut LineWriter<File>, message: &String, " + DIR, "&mut writer, &message, Tracked(d)",
+                               "std::io::Result<()>", WRITE_CONTRACT % "utf8_len(message@)", dict(name="vx_e9_write_many_msg")),
+                              ('writer.write_all(b"\\n")', None, "writer: &mut LineWriter<File>, " + DIR, "&mut writer, Tracked(d)",
+                               "std::io::Result<()>", WRITE_CONTRACT % "1", dict(name="vx_e9_write_many_nl")),
+                              ("writer.flush()", None, "writer: &mut LineWriter<File>, " + DIR, "&mut writer, Tracked(d)",
+                               "std::io::Result<()>", WRITE_CONTRACT % "0", dict(name="vx_e9_write_many_flush"))],
+                          loop_iter_names={0: "it"},
+                          loop_attrs={0: "#[verifier::loop_isolation(false)]"},
+                          loops={0: """
+                invariant
+                    d.wf(),
+                    wpath(writer) == self.cur(),
+                    d.io_failed == d1.io_failed,
+                    appended_at_most(d1, *d, self.cur(), total_bytes(ms.take(it.index@))),
+"""},
+                          hints=[("if let Ok(mut writer)", None, "before", "let ghost d1 = *d;\nlet ghost ms = messages@;"),
+                                 ("for message in messages", None, "before", "proof { assert(ms.take(0) =~= Seq::<String>::empty()); }"),
+                                 ('writer.write_all(b"\\n")', None, "after", "proof { lemma_total_step(ms, it.index@); }"),
+                                 ("writer.flush()", None, "before", "proof { assert(ms.take(ms.len() as int) =~= ms); }")],
+                          contract=WL % dict(f="write_many", w="total_bytes(messages@)",
+                                             s=SIZE_CLAUSE % "b >= self.max_log_file_size + total_bytes(messages@) && "))
+                u.take_fn(rl, "RollingLogger::write", ghost=DIR, ghost_calls=[("write_line", None, "Tracked(d)")],
+                          contract="""
+        requires old(d).wf(),
+                 self.max_log_file_count >= 1,
+        ensures final(d).wf(),
+                !final(d).io_failed ==> (log_inv(*old(d), self.cur(), self.max()) ==> log_inv(*final(d), self.cur(), self.max())),  // @C19.write.file_count_invariant
 """)
+
+    # ---- event logger: file-count guard of `start` (E5a loop-body tail) ----
+    el = u.src("proxy_agent_shared/src/telemetry/event_logger.rs")
+    tl = u.src("proxy_agent_shared/src/telemetry.rs")
+    from vxlib import Undecided
+    with u.mod("telemetry"):
+        u.take_ext(tl, ["Event"], "vx_ext_event", uses="use serde_derive::{Deserialize, Serialize};")
+        with u.mod("event_logger", uses="use crate::logger::logger_manager;\nuse crate::misc_helpers;\nuse crate::telemetry::Event;\nuse log::Level;\nuse std::path::PathBuf;"):
+            it = el.item("start", "fn")
+            if len(it["loops"]) < 1 or it["loops"][0]["kind"] != "loop":
+                raise Undecided("event_logger::start: outer `loop` not found")
+            lo_, hi_ = it["loops"][0]["body"]
+            a, _ = u.find_anchor(el, lo_, hi_, "match misc_helpers::get_files(&event_dir)", None, "start")
+            st = u.enclosing_stmt(it, a)
+            u.slice_fn(el, "start", "vx_slice_event_flush", st[0], hi_ - 1,
+                       "event_dir: PathBuf, max_event_file_count: usize, events: Vec<Event>, " + DIR,
+                       replacements=[("continue;", "all", "return;")],
+                       ghost_calls=[("misc_helpers::get_files", None, "Tracked(d)"), ("misc_helpers::json_write_to_file", None, "Tracked(d)")],
+                       pre_body="broadcast use axiom_fmt_path_display;\nbroadcast use axiom_fmt_error;\nbroadcast use axiom_fmt_i128;\n",
+                       hints=[("if files.len() >= max_event_file_count", None, "before", "proof { files@.unique_seq_to_set(); }"),
+                              ("let mut file_path", None, "before", "let ghost mid = *d;"),
+                              ("match misc_helpers::json_write_to_file", None, "after", "proof { lemma_added_one_count(mid, *d); }")],
+                       what="(loop body of start from the file-count check to the end; E5 drops: sleep, shutdown flag, queue draining)",
+                       contract="""
+        requires old(d).wf(),
+        ensures final(d).wf(),
+                final(d).count() <= old(d).count() + 1,
+                !final(d).io_failed ==> (final(d).count() > old(d).count() ==> old(d).count() < max_event_file_count),  // @C19.event_logger.start.file_written_only_below_cap
+                !final(d).io_failed ==> (within(*old(d), max_event_file_count as int) ==> within(*final(d), max_event_file_count as int)),  // @C19.event_logger.start.cap_never_exceeded
+                within(*old(d), max_event_file_count as int) ==> within(*final(d), max_event_file_count as int),  // @C19.event_logger.start.cap_never_exceeded_even_if_listing_fails
+""")
+
     # ---- proxy_agent ----
+    consts = u.src("proxy_agent/src/common/constants.rs")
     with u.mod("common"):
+        with u.mod("constants"):
+            u.take(consts, "MAX_LOG_FILE_COUNT", "const")
         with u.mod("logger"):
             u.take_fn(plog, "write_error", external_body=True, ret="")
             u.take_fn(plog, "write_information", external_body=True, ret="")
@@ -166,17 +327,31 @@ def build(u):
                           pre_body="broadcast use axiom_fmt_path_display;\nbroadcast use axiom_fmt_error;\nbroadcast use axiom_fmt_io_error;",
                           loop_iter_names={0: "it"},
                           loop_attrs={0: "#[verifier::loop_isolation(false)]"},
-                          loops={0: DELETE_LOOP_INV % dict(l="files@", m="max_file_count")},
+                          loops={0: DELETE_LOOP_INV % dict(l="files@", m="max_file_count", g="!d.io_failed ==> ")},
                           hints=[("return;", None, "before", "proof { lemma_added_refl(*d); }"),
                                  ("if files.len() >= max_file_count", None, "before", "let ghost d0 = *d;"),
-                                 ("for file in &files", None, "after", "proof { if !d.rm_failed { lemma_prefix_removed(files@, d0, *d, count - max_file_count); } }"),
+                                 ("for file in &files", None, "after", "proof { if !d.io_failed { lemma_prefix_removed(files@, d0, *d, count - max_file_count); } }"),
                                  ("let new_file_name", None, "before", "let ghost mid = *d;\nproof { if files.len() < max_file_count { lemma_prefix_removed(files@, d0, mid, 0); } }"),
                                  ("misc_helpers::json_write_to_file", None, "after", "proof { lemma_added_one_count(mid, *d); lemma_subset_count(*d, mid); }")],
                           contract="""
         requires old(d).wf(),
                  max_file_count >= 1,
         ensures final(d).wf(),
-                !final(d).rm_failed ==> within(*final(d), max_file_count as int) || final(d).files == old(d).files,  // @C19.write_all.at_most_max_dumps_for_any_start
-                !final(d).rm_failed ==> deleted_oldest_then_added_one(*old(d), *final(d)),  // @C19.write_all.oldest_removed_first
-                !final(d).rm_failed ==> final(d).count() >= min_int(old(d).count() as int, max_file_count - 1),  // @C19.write_all.keeps_allowed_number
+                !final(d).io_failed ==> within(*final(d), max_file_count as int) || final(d).files == old(d).files,  // @C19.write_all.at_most_max_dumps_for_any_start
+                !final(d).io_failed ==> deleted_oldest_then_added_one(*old(d), *final(d)),  // @C19.write_all.oldest_removed_first
+                !final(d).io_failed ==> final(d).count() >= min_int(old(d).count() as int, max_file_count - 1),  // @C19.write_all.keeps_allowed_number
+""")
+
+    # ---- call sites: the configured counts are >= 1 (precondition of the functions above) ----
+    kk = u.src("proxy_agent/src/key_keeper.rs")
+    with u.mod("vx_call_sites", uses="use crate::common::constants;"):
+        arg_slices(u, kk, "write_all", "method", 1, 2, "vx_slice_write_all_max", "usize", """
+        ensures r >= 1,  // @C19.call_site.%s.max_dump_count_at_least_one
+""")
+        for rel in ("proxy_agent/src/service.rs", "proxy_agent_extension/src/logger.rs", "proxy_agent_setup/src/logger.rs",
+                    "proxy_agent_shared/src/logger/rolling_logger.rs"):
+            sf = u.src(rel)
+            nm = "vx_slice_log_count_" + rel.split("/")[0].replace("proxy_agent", "pa") + "_" + os.path.basename(rel)[:-3]
+            arg_slices(u, sf, "RollingLogger::create_new", "path", 3, 4, nm, "u16", """
+        ensures r >= 1,  // @C19.call_site.%s.max_log_file_count_at_least_one
 """)
